@@ -29,7 +29,8 @@ import (
 	"verifharness/internal/h"
 )
 
-const stepTimeout = 15 * time.Second
+// per-step timeout; the thorough tier moves messages of several MiB on a machine shared with other checks
+var stepTimeout = 15 * time.Second
 
 type ack4 struct{ rcv, snd, maxMsg, maxChunks uint32 }
 
@@ -561,6 +562,14 @@ func (e *env) fail(c, sig, detail string) {
 func (e *env) eval(tc tcase) bool {
 	e.seed++
 	o, err := transfer(tc.C, tc.S, tc.dir, tc.payload, e.seed, tc.sign)
+	if err == nil && o.sender == "incomplete" {
+		// the final chunk did not show up within the step timeout and the sender reported no error: load, not behaviour
+		e.seed++
+		o, err = transfer(tc.C, tc.S, tc.dir, tc.payload, e.seed, tc.sign)
+		if err == nil && o.sender == "incomplete" {
+			err = fmt.Errorf("the message was not written completely within %v (twice)", stepTimeout)
+		}
+	}
 	if err != nil {
 		e.r.InfraError = fmt.Sprintf("%s payload=%d: %v", tc.line(-1), tc.payload, err)
 		return false
@@ -733,6 +742,9 @@ func main() {
 	def := ack4{dc.ReceiveBufSize, dc.SendBufSize, dc.MaxMessageSize, dc.MaxChunkCount}
 	defS := ack4{ds.ReceiveBufSize, ds.SendBufSize, ds.MaxMessageSize, ds.MaxChunkCount}
 	e := &env{r: r, d: d, seed: uint32(o.Seed) * 100000, def: def, defS: defS}
+	if o.Thorough() {
+		stepTimeout = 60 * time.Second
+	}
 	rnd := h.NewRand(o.Seed)
 	r.Rule = "case = (direction, client Hello limits, server Acknowledge limits, message body size): real uacp.Dial/Listen handshake and None-mode OpenSecureChannel over loopback through a recording proxy, then one WriteRequest (client→server) or ReadResponse (server→client) whose body has the chosen size; compared with the Lean model: both sides' four negotiated limits, number/max/last size of the chunks on the wire, sender result, receiver verdict. Buffers from {8192, 8193, 16384, 65535, 65536, 2^20} independently for the four values, MaxMessageSize/MaxChunkCount from {0, small, default}, sizes at chunk boundaries and at the limits -1/0/+1; every case is non-trivial, distinct by line"
 
@@ -822,7 +834,7 @@ func main() {
 	}
 	bufs := []int{8192, 8193, 16384, 65535, 65536, 1 << 20}
 	pickBuf := func() uint32 { return uint32(bufs[rnd.Intn(len(bufs))]) }
-	nconf := o.N(60, 1500)
+	nconf := o.N(60, 1000)
 	for i := 0; i < nconf && r.InfraError == ""; i++ {
 		var C, S ack4
 		switch rnd.Intn(4) {
